@@ -387,7 +387,7 @@ def fmt_t(t) -> str:
     return f"port {t[1]}[{t[2]}]"
 
 
-def compare_renamed(ref: Flat, obs: Flat, cap: int = 20000) -> Optional[List[str]]:
+def compare_renamed(ref: Flat, obs: Flat, cap: int = 20000, ref_is_obs: bool = False) -> Optional[List[str]]:
     """Like `compare`, but leaf instances are identified by their unique tag instead of their path, and leaves that
     share a tag (elements of one array / pair) are matched by searching a bijection that makes the partitions equal.
     Returns [] if some bijection works, a list of differences otherwise, None if the search space exceeded `cap`."""
@@ -411,7 +411,7 @@ def compare_renamed(ref: Flat, obs: Flat, cap: int = 20000) -> Optional[List[str
     gr: Dict[Any, list] = {}
     go: Dict[Any, list] = {}
     for p, v in ref.leaves.items():
-        gr.setdefault(ref_key(v), []).append(p)
+        gr.setdefault(obs_key(v) if ref_is_obs else ref_key(v), []).append(p)
     for p, v in obs.leaves.items():
         go.setdefault(obs_key(v), []).append(p)
     diffs = []
